@@ -11,6 +11,8 @@
 (*   GN  anonymous call with named inputs  p <-- e, q <-- e                *)
 (*   GCA cs[i].x <-- e : a port of an element of a component array, in a    *)
 (*       loop (CCA: the constraint on the same port in the same loop)       *)
+(*   GCP c2.x <-- n : a port assigned from a parameter, alone in a branch   *)
+(*       (a basic block that touches no signal of the template itself)      *)
 (* Constraint items (each mentions the signals listed in Mentions):        *)
 (*   C1, C1b (two different statements mentioning s1), C2 (s2), CA (sa[i]  *)
 (*   in the same loop), CC (c.x), CT (t1), Q (u <== expression with s1),   *)
@@ -25,12 +27,12 @@ EXTENDS Integers, Sequences, FiniteSets, TLC, Json, SequencesExt
 
 CONSTANTS MaxItems
 
-Assigning == {"G1", "GR", "GA", "GC", "GT", "GN", "GCA"}
+Assigning == {"G1", "GR", "GA", "GC", "GT", "GN", "GCA", "GCP"}
 Constraining == {"C1", "C1b", "C2", "CA", "CC", "CT", "Q", "QR", "C0", "CN1", "CN2", "CCA"}
 Items == Assigning \cup Constraining
 \* the signals (with access text) an assigning item assigns with `<--`
 Assigns == [i \in Assigning |->
-  CASE i = "G1" -> {"s1"} [] i = "GR" -> {"s2"} [] i = "GA" -> {"sa[i]"} [] i = "GC" -> {"c.x"} [] i = "GT" -> {"t1", "t2"} [] i = "GN" -> {"p", "q"} [] i = "GCA" -> {"cs[i].x"}]
+  CASE i = "G1" -> {"s1"} [] i = "GR" -> {"s2"} [] i = "GA" -> {"sa[i]"} [] i = "GC" -> {"c.x"} [] i = "GT" -> {"t1", "t2"} [] i = "GN" -> {"p", "q"} [] i = "GCA" -> {"cs[i].x"} [] i = "GCP" -> {"c2.x"}]
 Mentions == [i \in Constraining |->
   CASE i = "C1" -> {"s1"} [] i = "C1b" -> {"s1"} [] i = "C2" -> {"s2"} [] i = "CA" -> {"sa[i]"} [] i = "CC" -> {"c.x"} [] i = "CT" -> {"t1"}
     [] i = "Q" -> {"s1"} [] i = "QR" -> {"s2"} [] i = "C0" -> {}
